@@ -482,8 +482,11 @@ def collect_aliases(f):
                 k = src.get("k")
                 if k == "ref" or (k == "unary" and src["op"] == "*" and "ovl" not in src):
                     src = src["e"]
-                elif k == "blockexpr" and not src["b"]["stmts"] and "tail" in src["b"]:
+                elif k == "blockexpr" and "tail" in src["b"]:
+                    # `let a = { let mut v = ..; ..; v };` (also an inlined helper that builds and returns a value): a stands for v
                     src = src["b"]["tail"]
+                elif k == "ctor" and callee(src).endswith(("Result::Ok",)) and len(src.get("args", [])) == 1 and False:
+                    src = src["args"][0]
                 else:
                     break
             if src.get("k") == "local":
